@@ -165,6 +165,53 @@ def symbolic_env(f, upto):
     return ev
 
 
+class _Op:
+    """a symbolic dense operator: linear combination of Kronecker products of named one-site matrices"""
+
+    _abstract = True
+
+    def __init__(self, terms):
+        self.terms = dict(terms)
+
+    def __and__(self, o):
+        return _Op({ka + kb: ca * cb for ka, ca in self.terms.items() for kb, cb in o.terms.items()})
+
+    def __mul__(self, o):
+        if isinstance(o, _Op):
+            return NotImplemented
+        return _Op({k: c * o for k, c in self.terms.items()})
+
+    __rmul__ = __mul__
+
+    def __truediv__(self, o):
+        return _Op({k: c / o for k, c in self.terms.items()})
+
+    def __neg__(self):
+        return _Op({k: -c for k, c in self.terms.items()})
+
+    def __add__(self, o):
+        if not isinstance(o, _Op):
+            return NotImplemented
+        out = dict(self.terms)
+        for k, c in o.terms.items():
+            if k in out:
+                if not (isinstance(out[k], Q) and isinstance(c, Q) and out[k].syms == c.syms):
+                    raise TypeError("sum of unlike symbolic coefficients on one Kronecker product")
+                out[k] = Q(out[k].c + c.c, out[k].syms)
+            else:
+                out[k] = c
+        return _Op(out)
+
+    def __sub__(self, o):
+        return self + (-o)
+
+    def reshape(self, *shape):
+        return self
+
+    def astype(self, *a, **k):
+        return self
+
+
 class Q:
     """symbolic monomial  c * prod(symbol ** exponent)  (coefficients of Hamiltonian terms are products / quotients of parameters)"""
 
@@ -190,6 +237,8 @@ class Q:
         raise TypeError(f"unsupported operand {type(o).__name__} for a symbolic coefficient")
 
     def __mul__(self, o):
+        if isinstance(o, _Op):
+            return NotImplemented
         o = self._lift(o)
         syms = dict(self.syms)
         for k, v in o.syms.items():
@@ -305,26 +354,41 @@ def check_terms(prog, ctx):
         ctx.need(n_onsite >= 4, f"{f.qualname}: fewer than two on-site terms per variant found")
         d = f.defaults().get("coordinations")
         ctx.check(d is not None and src(d) == "(1, 1)", rid, f, f.node, "default coordinations", "coordinations default to (1, 1) (a single bond)")
-    # TFIM (dense builder)
+    # TFIM (dense builder): evaluated with a symbolic stand-in for quimb's Pauli matrices; the dense operator handed to from_dense
+    # is recorded as a linear combination of Kronecker products
     f = prog.func("symmray.hamiltonians:tfim_local_array")
-    coefs = _coef_sites(f)
-    h2 = [a for a in walk_own(f.node) if isinstance(a, ast.Assign) and src(a.targets[0]) == "h2"]
-    ctx.need(len(h2) == 1, "tfim_local_array: h2 expression not found")
-    found = 0
-    for n in ast.walk(h2[0].value):
-        if isinstance(n, ast.BinOp) and isinstance(n.op, ast.Mult) and isinstance(n.right, ast.BinOp) and isinstance(n.right.op, ast.BitAnd):
-            factors = [src(n.right.left), src(n.right.right)]
-            nonid = [i for i, x in enumerate(factors) if x != "I"]
-            left = n.left
-            if len(nonid) == 1:
-                k = nonid[0]
-                found += 1
-                ok = isinstance(left, ast.BinOp) and isinstance(left.op, ast.Div) and src(left.right) == f"coordinations[{k}]" \
-                    and isinstance(left.left, ast.Name) and coefs.get(left.left.id, (None,))[0] == k
-                ctx.check(ok, rid, f, n, src(n), f"single-site field on site {k} is that site's field divided by coordinations[{k}]")
-            else:
-                ctx.check("coordinations" not in src(left), rid, f, n, src(n), "two-site coupling is not divided by a coordination")
-    ctx.need(found == 2, "tfim_local_array: expected two single-site field terms")
+    for variant in ("per-site", "scalar", "default coordinations"):
+        rec = {}
+
+        def recorder(dense, *a, _rec=rec, **kw):
+            _rec["dense"] = dense
+            return ("array",)
+
+        kw = {"jx": Q.of("jx"), "hz": (Q.of("hz0"), Q.of("hz1")) if variant != "scalar" else Q.of("hz")}
+        if variant != "default coordinations":
+            kw["coordinations"] = (Q.of("z0"), Q.of("z1"))
+        ev = evaluator(prog, extra={"from_dense": recorder, "qu.pauli": lambda s_, **k: _Op({(str(s_).upper(),): Q(1)}),
+                                    "quimb.pauli": lambda s_, **k: _Op({(str(s_).upper(),): Q(1)})})
+        try:
+            ev.call(f, ["Z2"], kw)
+        except Unsupported as e:
+            raise AnalysisError(f"{f.qualname} outside the evaluable sub-language: {e}")
+        except (Raised, KeyError, TypeError, AttributeError, ValueError, IndexError) as e:
+            ctx.check(False, rid, f, f.node, f"tfim {variant}: fails", f"{f.qualname} ({variant}) fails: {type(e).__name__}: {getattr(e, 'what', e)}")
+            continue
+        dense = rec.get("dense")
+        ctx.need(isinstance(dense, _Op), "tfim_local_array: no dense operator handed to from_dense")
+        h = ("hz0", "hz1") if variant != "scalar" else ("hz", "hz")
+        z = ("z0", "z1") if variant != "default coordinations" else (None, None)
+        want = {("X", "X"): Q.of("jx"),
+                ("Z", "I"): Q.of(h[0]) / (Q.of(z[0]) if z[0] else 1),
+                ("I", "Z"): Q.of(h[1]) / (Q.of(z[1]) if z[1] else 1)}
+        got = {k: v for k, v in dense.terms.items() if v != 0}
+        for k in sorted(set(want) | set(got)):
+            what = "coupling X X with coefficient jx (not divided by a coordination)" if k == ("X", "X") else \
+                f"single-site field {' '.join(k)}: that site's field divided once by that site's coordination"
+            ctx.check(got.get(k) == want.get(k), rid, f, f.node, f"tfim {variant}: {' '.join(k)}",
+                      f"{f.qualname} ({variant}): {what}" + ("" if got.get(k) == want.get(k) else f" — got {got.get(k)!r}, expected {want.get(k)!r}"))
     ctx.minimum(rid, 14, "spinless 5 terms, spinful 10 terms, tfim 3")
 
 
